@@ -1094,11 +1094,8 @@ class Mesh:
         return cls(p, t, validate=False)
 
     @staticmethod
-    def build_entities(t, indices, sort=True):
-        """Build low dimensional topological entities."""
-        if indices is None:
-            return None, None
-        indexing = np.hstack(tuple([t[ix] for ix in indices]))
+    def _sort_entities(indexing):
+        """Sort the vertices of each entity (column)."""
         sorted_indexing = np.sort(indexing, axis=0)
 
         if sorted_indexing.shape[0] > 2:
@@ -1113,6 +1110,16 @@ class Mesh:
                 verts = (sorted_indexing[:, cols].T[keep.T]
                          .reshape(len(cols), -1).T)
                 sorted_indexing[:, cols] = np.vstack((verts, verts[-1]))
+
+        return sorted_indexing
+
+    @staticmethod
+    def build_entities(t, indices, sort=True):
+        """Build low dimensional topological entities."""
+        if indices is None:
+            return None, None
+        indexing = np.hstack(tuple([t[ix] for ix in indices]))
+        sorted_indexing = Mesh._sort_entities(indexing)
 
         sorted_indexing, ixa, ixb = np.unique(sorted_indexing,
                                               axis=1,
@@ -1284,9 +1291,9 @@ class Mesh:
         # facets among the new ones through their vertices
         ix = np.zeros(self.doflocs.shape[1], dtype=np.int32)
         ix[self.t] = t
-        old = np.sort(ix[self.facets], axis=0)
+        old = self._sort_entities(ix[self.facets])
         nnew = m.facets.shape[1]
-        _, inv = np.unique(np.hstack((np.sort(m.facets, axis=0), old)),
+        _, inv = np.unique(np.hstack((self._sort_entities(m.facets), old)),
                            axis=1, return_inverse=True)
         inv = inv.flatten()
         pos = np.zeros(np.max(inv) + 1, dtype=np.int32)
